@@ -63,5 +63,6 @@ BitTnP2(a, b)      == BitTnDiff(a, b) /\ (Enc(a, FALSE) | Enc(b, FALSE)) # 200 /
 (* Dec9(n, d) = round(n / d * 10^9) as an integer, for 0 <= n <= d, 0 < d < 1024 (no ties exist there) *)
 RECURSIVE Dec9Step(_, _, _, _)
 Dec9Step(v, r, d, k) == IF k = 0 THEN <<v, r>> ELSE Dec9Step(v * 10 + ((r * 10) \div d), (r * 10) % d, d, k - 1)
+Floor9(n, d) == Dec9Step(n \div d, n % d, d, 9)[1]      \* floor(n / d * 10^9): n/d >= T/10^9 iff Floor9(n, d) >= T
 Dec9(n, d) == LET vr == Dec9Step(n \div d, n % d, d, 9) IN vr[1] + (IF 2 * vr[2] >= d THEN 1 ELSE 0)
 =============================================================================
